@@ -307,7 +307,9 @@ func qPattern(x *explore.X, pattern []outcome, what string) int {
 		}
 		// exponential back-off between consecutive failing invocations
 		for i := 2; i < len(calls) && i <= len(pattern); i++ {
-			if pattern[i-1] != oOK && pattern[i-2] != oOK && calls[i]-calls[i-1] <= calls[i-1]-calls[i-2] {
+			// growing until the ceiling of one minute can have been reached, never shrinking afterwards
+			prev, gap := calls[i-1]-calls[i-2], calls[i]-calls[i-1]
+			if pattern[i-1] != oOK && pattern[i-2] != oOK && (gap < prev || (gap == prev && prev < 30*time.Second)) {
 				x.FailKey("contain/backoff", "%s: back-off did not grow: invocations at %v", label, calls)
 			}
 		}
@@ -542,6 +544,16 @@ func patternScenario() explore.Scenario {
 				}
 			}
 			rec(nil)
+			// a run hook that keeps failing for a quarter of an hour of virtual time (seed c16i: a restart loop that
+			// measures "ran long enough to reset the back-off" from the wrong instant is right for the first minute)
+			for _, o := range []outcome{oErr, oPanic} {
+				long := make([]outcome, 24)
+				for i := range long {
+					long[i] = o
+				}
+				steps += qPattern(x, long, "runhook")
+				n++
+			}
 			x.Add("states", n)
 			x.Add("transitions", steps)
 			x.Add("evaluations", n)
